@@ -10,16 +10,20 @@ func (c *Config) verify() error {
 		return err
 	}
 
-	if err := c.Proxy.verify(); err != nil {
-		return err
-	}
+	// Both what the running process uses (command-line overwrites included) and what the next start
+	// will load from the file have to be workable; staged values count as if they were committed.
+	for _, v := range []view{effective, saved} {
+		if err := c.Proxy.verify(v); err != nil {
+			return err
+		}
 
-	if err := c.Webserver.verify(); err != nil {
-		return err
-	}
+		if err := c.Webserver.verify(v); err != nil {
+			return err
+		}
 
-	if err := c.Cache.verify(); err != nil {
-		return err
+		if err := c.Cache.verify(v); err != nil {
+			return err
+		}
 	}
 
 	return nil
